@@ -438,7 +438,7 @@ var c12capacity = Register(&Prop[CapacityCase]{ID: "C12", Name: "capacity-source
 
 func capacityCases() []*CapacityCase {
 	cs := []*CapacityCase{
-		{Kind: "long-arms", N: 5457, Sel: false}, {Kind: "long-arms", N: 5458, Sel: true}, {Kind: "long-then", N: 16386}, {Kind: "long-then", N: 16390}, {Kind: "long-then", N: 16394},
+		{Kind: "long-arms", N: 5457, Sel: false}, {Kind: "long-arms", N: 5458, Sel: true}, {Kind: "long-then", N: 16381}, {Kind: "long-then", N: 16382}, {Kind: "long-then", N: 16383},
 	}
 	if Tier == "thorough" || os.Getenv("VERIF_CAPACITY_ALL") != "" {
 		cs = append(cs, &CapacityCase{Kind: "long-arms", N: 5400}, &CapacityCase{Kind: "long-arms", N: 5470}, &CapacityCase{Kind: "long-arms", N: 5600, Sel: true},
